@@ -354,3 +354,195 @@ pub fn replay(path: &str) -> i32 {
         }
     }
 }
+
+// ---------------------------------------------------------------------------------------------
+// cellsim-based properties (C13, C16)
+
+fn confirm_cellsim(v: &Value) -> Result<bool, String> {
+    let out = proc::call(&["single", "cellsim"], &v["scenario"])?;
+    let class = v["class"].as_str().unwrap_or("");
+    Ok(out["violation"].as_array().map_or(false, |a| a[0].as_str() == Some(class)))
+}
+
+pub fn check_cellsim(property: &str, tier: &str) -> i32 {
+    let t0 = Instant::now();
+    let seed = verif_seed();
+    let thorough = tier == "thorough";
+    let par = workers();
+    let boots = if thorough { 8 } else { 2 };
+    let shards = (par / boots).max(1);
+    let runs: u64 = match (property, thorough) {
+        ("C13", false) => 24_000,
+        ("C13", true) => 1_200_000,
+        ("C16", false) => 40_000,
+        (_, _) => 2_400_000,
+    };
+    let mut jobs = Vec::new();
+    let nw = (boots * shards) as u64;
+    for b in 0..boots {
+        for s in 0..shards {
+            let w = (b * shards + s) as u64;
+            jobs.push((
+                vec!["worker".to_string(), "cellsim".to_string()],
+                json!({"property": property, "tier": tier, "seed": seed, "boot_seed": hashsim::boot_seed_n(seed, b), "shard": w, "shards": nw, "runs": runs}),
+            ));
+        }
+    }
+    let results = proc::call_many(jobs, par);
+    let mut harness_errors = Vec::new();
+    let mut candidates: Vec<Value> = Vec::new();
+    let mut n = 0u64;
+    let mut events = 0u64;
+    let mut lock_events = 0u64;
+    let mut switches = 0u64;
+    let mut sched: BTreeSet<String> = BTreeSet::new();
+    let mut hist: BTreeSet<String> = BTreeSet::new();
+    let mut ops: BTreeMap<String, u64> = BTreeMap::new();
+    let mut policies: BTreeMap<String, u64> = BTreeMap::new();
+    let mut probes: BTreeMap<String, u64> = BTreeMap::new();
+    let mut rejected: BTreeMap<String, u64> = BTreeMap::new();
+    let mut failing = 0u64;
+    let mut overlapped = 0u64;
+    let mut det = 0u64;
+    let mut samples = Vec::new();
+    let add = |m: &mut BTreeMap<String, u64>, v: &Value| {
+        if let Some(o) = v.as_object() {
+            for (k, c) in o {
+                *m.entry(k.clone()).or_default() += c.as_u64().unwrap_or(0);
+            }
+        }
+    };
+    for r in results {
+        match r {
+            Err(e) => harness_errors.push(json!({"what": "worker failed", "error": e})),
+            Ok(v) => {
+                n += v["runs"].as_u64().unwrap_or(0);
+                events += v["events"].as_u64().unwrap_or(0);
+                lock_events += v["lock_events"].as_u64().unwrap_or(0);
+                switches += v["context_switches"].as_u64().unwrap_or(0);
+                failing += v["failing_ops_fired"].as_u64().unwrap_or(0);
+                overlapped += v["overlapped_rmw_pairs"].as_u64().unwrap_or(0);
+                det += v["determinism_checked"].as_u64().unwrap_or(0);
+                for d in v["sched_digests"].as_array().cloned().unwrap_or_default() {
+                    sched.insert(d.as_str().unwrap().to_string());
+                }
+                for d in v["hist_digests"].as_array().cloned().unwrap_or_default() {
+                    hist.insert(d.as_str().unwrap().to_string());
+                }
+                add(&mut ops, &v["ops"]);
+                add(&mut policies, &v["policies"]);
+                add(&mut probes, &v["probes"]);
+                add(&mut rejected, &v["rejected"]);
+                for h in v["harness_errors"].as_array().cloned().unwrap_or_default() {
+                    harness_errors.push(h);
+                }
+                for c in v["violations"].as_array().cloned().unwrap_or_default() {
+                    candidates.push(c);
+                }
+                if samples.len() < 4 {
+                    for s in v["samples"].as_array().cloned().unwrap_or_default().into_iter().take(1) {
+                        samples.push(s);
+                    }
+                }
+            }
+        }
+    }
+    // minimise + confirm, at most a handful per class
+    let mut confirmed = Vec::new();
+    let mut per_class: BTreeMap<String, usize> = BTreeMap::new();
+    let mut unconfirmed = 0;
+    for c in candidates {
+        let class = c["class"].as_str().unwrap_or("").to_string();
+        let k = per_class.entry(class.clone()).or_default();
+        if *k >= 3 {
+            continue;
+        }
+        *k += 1;
+        let mut c = c;
+        c["sim"] = json!("cellsim");
+        match proc::call(&["minimise", "cellsim"], &json!({"scenario": c["scenario"], "class": class})) {
+            Ok(m) if m["reproduced"].as_bool() == Some(true) => {
+                c["original_scenario"] = c["scenario"].clone();
+                c["scenario"] = m["scenario"].clone();
+                c["detail"] = m["detail"].clone();
+                c["log"] = m["log"].clone();
+                c["minimise_trials"] = m["trials"].clone();
+            }
+            Ok(_) => {}
+            Err(e) => harness_errors.push(json!({"what": "minimiser failed", "error": e})),
+        }
+        let src: Vec<String> = c["scenario"]["threads"]
+            .as_array()
+            .map(|ts| ts.iter().map(|t| t.as_array().map(|ops| ops.iter().map(|o| o["src"].as_str().unwrap_or("").to_string()).collect::<Vec<_>>().join("; ")).unwrap_or_default()).collect())
+            .unwrap_or_default();
+        c["subject_id"] = json!(format!("{} || {}", src.join(" || "), c["scenario"]["prog"].as_str().unwrap_or("")));
+        match confirm_cellsim(&c) {
+            Ok(true) => confirmed.push(c),
+            Ok(false) => {
+                unconfirmed += 1;
+                harness_errors.push(json!({"what": "candidate did not reproduce in a fresh process", "candidate": c}));
+            }
+            Err(e) => harness_errors.push(json!({"what": "replay failed", "error": e})),
+        }
+    }
+    let wall = t0.elapsed().as_secs_f64();
+    let (rule, distinct) = if property == "C13" {
+        (
+            "One run = one seeded history of 5-40 operations (assignments with all 12 operators incl. failing ones, reads, renderings, identity tests, parameter passing, read-after-rhs, fresh cells, re-pointing a cell of cells, plus 'attack' assignments the checker must refuse) over the aliasing graph of the fixed world (10 cells of 8 declared types reachable through 25 alias paths), under the run's hash keys; after EVERY step the result is compared with the reference heap, every cell is read through every alias path, and every cell's content is checked against its declared type. distinct_nontrivial = distinct histories (digest of operation texts + results).",
+            hist.len() as u64,
+        )
+    } else {
+        (
+            "One run = one shuttle execution (2-3 tasks x 1-4 pre-built operations on the shared world, or 2-3 tasks executing one shared Code) under one seeded scheduler (uniform random, sticky random, PCT depth 1-4) and one hash-key seed; every acquire/release of a cell's lock is a scheduling point. Oracles: deadlock (all tasks blocked), panic, per-cell linearizability of the recorded history (Wing-Gong against the sequential cell model, final contents included), declared-type check of every cell, equality with the sequential run for shared Code. distinct_nontrivial = distinct interleavings, measured as distinct digests of the per-run sequence of (task, lock, lock-event).",
+            sched.len() as u64,
+        )
+    };
+    let coverage = json!({
+        "evaluations": n,
+        "distinct_nontrivial": distinct,
+        "rule": rule,
+        "samples": samples,
+        "simulated_time_events": events,
+        "lock_events": lock_events,
+        "context_switches": switches,
+        "distinct_schedules": sched.len(),
+        "distinct_histories": hist.len(),
+        "runs_per_hour": (n as f64 / wall * 3600.0) as u64,
+        "seeds_per_hour": (n as f64 / wall * 3600.0) as u64,
+        "operations_by_kind": ops,
+        "scheduler_policies": policies,
+        "fault_kinds_fired": {"failing_compound_assignment": failing, "hash_key_reseed": n, "attack_assignments_rejected_by_checker": rejected.values().sum::<u64>()},
+        "probes": probes,
+        "overlapping_read_modify_write_pairs": overlapped,
+        "rejected_operations": rejected,
+        "replayed_from_explicit_record": det,
+        "boot_seeds": boots,
+        "worker_processes": boots * shards,
+        "unconfirmed_candidates": unconfirmed,
+        "real_vs_stub": {"real": ["parser", "checker", "recreate", "exec", "variable::Mut", "assign::exec/try_exec", "indirection", "Mut::string", "lazy_static helper functions (ITER/MAP/FILTER)"], "model": ["std::sync::RwLock -> writer-preferring simulated lock (std's Linux futex policy) over a real inner std RwLock"], "stub": ["OS threads -> shuttle tasks", "stdout captured"]},
+        "exhaustive": false,
+    });
+    finish(Report {
+        property: property.to_string(),
+        tier: tier.to_string(),
+        seed,
+        level: "exploration",
+        coverage,
+        assumptions: vec![
+            "the simulated lock admits exactly what std's futex RwLock admits on Linux (readers wait behind a queued writer); validated against real threads by `check selftest`".into(),
+            "interleavings are only distinguishable at lock operations: all other interpreter state is thread-private or immutable Arc data".into(),
+            "small operands: the reference arithmetic never overflows, so C08's wrap-around rules are not re-specified here".into(),
+        ],
+        violations: confirmed,
+        harness_errors,
+        wall_s: wall,
+    })
+}
+
+pub fn confirm_any(sim: &str, v: &Value) -> Result<bool, String> {
+    match sim {
+        "hashsim" => confirm_hashsim(v),
+        "cellsim" => confirm_cellsim(v),
+        other => Err(format!("unknown sim {other}")),
+    }
+}
